@@ -1,6 +1,7 @@
 (* C03: the decoder accepts exactly the encodings the specification allows. *)
 From PV Require Import Base MachineInt VarintParams GenArith GenLoops Varint Utf8 DataModel Ser De
   WireFormat VarintFacts VarintCore DeFacts DeSpec Locality DeMethods DeMethodFacts.
+From PV Require Import GenErrorImpls.
 Open Scope N_scope.
 
 (* On every input the bit-level decoder of the implementation (varint loops with the
@@ -95,6 +96,12 @@ Theorem C03_slice_decoder_is_the_method_bodies : forall (t : ty) (l : list byte)
   dvm slice_pop slice_take_n t l = de_slice t l.
 Proof. exact de_slice_is_the_method_bodies. Qed.
 
+(* what serde's `custom` errors become (the model's SerdeSerCustom / SerdeDeCustom outcomes for a
+   failing Serialize / Deserialize impl): the two impls of error.rs match their template *)
+Theorem C03_custom_errors_are_the_source :
+  error_fns_matched = [[64; 105; 109; 112; 108; 32; 115; 101; 114; 100; 101; 58; 58; 115; 101; 114; 58; 58; 69; 114; 114; 111; 114; 32; 102; 111; 114; 32; 69; 114; 114; 111; 114]].
+Proof. exact (eq_refl error_fns_matched). Qed.
+
 Print Assumptions C03_de_is_spec.
 Print Assumptions C03_varint_exact.
 Print Assumptions C03_varint_errors.
@@ -104,3 +111,4 @@ Print Assumptions C03_remaining_bytes_irrelevant.
 Print Assumptions C03_strict_prefix_unexpected_end.
 Print Assumptions C03_model_is_the_method_bodies.
 Print Assumptions C03_slice_decoder_is_the_method_bodies.
+Print Assumptions C03_custom_errors_are_the_source.
